@@ -58,6 +58,12 @@ type vfLink struct {
 	rec     bytes.Buffer
 	msgs    []vfMsg
 	onMsg   func(m vfMsg, before bool) // called with the link lock released
+	// rewrite is the MITM stage: it sees every message that arrives as one complete line in one write (all handshake,
+	// name, size and ack lines do) and may return a replacement line.
+	rewrite func(m vfMsg, line []byte) []byte
+	// wholeTrigger: triggers are recognised within one read (per-read detection is the documented contract), so the
+	// segmenter never splits a piece that carries the trigger marker.
+	wholeTrigger bool
 	line    []byte
 	lineOff int64
 	skip    int // raw bytes of a binary block still to pass
@@ -181,7 +187,18 @@ func (l *vfLink) feed(p []byte) {
 			}
 		}
 		if len(pc.data) > 0 {
-			l.deliver(pc.data, off)
+			data := pc.data
+			if l.rewrite != nil && len(pc.pre) == 1 && len(pc.post) == 1 && pc.pre[0].Idx == pc.post[0].Idx && pc.post[0].Typ != "BIN" {
+				l.mu.Lock()
+				mm := l.msgs[pc.post[0].Idx]
+				l.mu.Unlock()
+				if mm.Len == len(data) {
+					if nd := l.rewrite(mm, data); nd != nil {
+						data = nd
+					}
+				}
+			}
+			l.deliver(data, off)
 			off += int64(len(pc.data))
 		}
 		if onMsg != nil {
@@ -283,6 +300,9 @@ func (l *vfLink) deliver(data []byte, off int64) {
 		}
 	}
 	seg := l.seg
+	if l.wholeTrigger && bytes.Contains(out, []byte("::TRZSZ:TRANSFER:")) {
+		seg = vfSeg{}
+	}
 	l.mu.Unlock()
 	if len(out) == 0 {
 		return
